@@ -118,7 +118,7 @@ struct TreeWorld : World {
             op.k = wpick(r, {{40, T_PUT}, {22, T_GET}, {20, T_REMOVE}, {2, T_CLEAR}, {5, T_SIZE}, {5, T_MIN}, {5, T_MAX},
                              {(prop == "C11" || prop == "C15" || prop == "C14") ? 6 : 0, T_WALK},
                              {(prop == "C11" || prop == "C15" || prop == "C14") ? 6 : 0, T_NEAREST},
-                             {(prop == "C14") ? 3 : 0, T_DEBUG}});
+                             {(prop == "C14") ? 3 : 0, T_DEBUG}, {(prop == "C14") ? 6 : 0, T_LOCKEDWALK}});
         else if (prop == "C02")
             op.k = Uc >= 200 ? wpick(r, {{50, T_PUT}, {10, T_GET}, {40, T_REMOVE}, {1, T_BULK}})
                              : wpick(r, {{40, T_PUT}, {15, T_GET}, {40, T_REMOVE}, {1, T_CLEAR}, {2, T_BULK}});
@@ -131,6 +131,7 @@ struct TreeWorld : World {
         case T_PUT: op.b = (int)r.below(1 << 20); op.c = gen_vlen(r, 300); op.d = putd(); break;
         case T_GET: op.d = (int)r.below(2) | ((str ? (int)r.below(3) : 0) << 1); break;
         case T_REMOVE: op.d = str ? (int)r.below(2) : 0; break;
+        case T_LOCKEDWALK: op.d = (int)r.below(2); break;
         case T_WALK:
             op.a = (prop == "C03" || (prop == "C04" && r.chance(1, 2))) ? r.pick(std::vector<int>{1, 1, 1, 2, 3, 100, 126, 127, 128, 129, 254, 255, 256, 257, 300}) : 1;
             op.d = (int)r.below(2); break;
@@ -196,7 +197,7 @@ struct TreeWorld : World {
     void sut_destroy(Ctx &) override { if (t) { InSut s; t->free(t); } t = nullptr; }
     void sut_abandon() override { t = nullptr; }
     void *sut_mutex() override { return t ? t->qmutex : nullptr; }
-    void sut_force_unlock() override { InSut s; t->unlock(t); }
+    void sut_force_unlock() override { InSutLock s; t->unlock(t); }
     void sut_probe(Ctx &) override { InSut s; size_t n; void *p = t->find_min(t, &n); free(p); }
 
     long budget() const { size_t n = t ? t->num : 0; return 100 + 8 * (long)(2 * log2((double)n + 2)); }
@@ -210,7 +211,7 @@ struct TreeWorld : World {
             sut_abandon();                                                                                   \
             x.fail("not-terminated", "result", "comparator step budget exceeded inside the call (no termination)"); \
         }                                                                                                    \
-        g_cmp_armed = counting; sim_in_sut(true); stmt; sim_in_sut(false); g_cmp_armed = false;              \
+        g_cmp_armed = counting; { InSut _g; stmt; } g_cmp_armed = false;                                     \
     } while (0)
 
     Result sut_apply(const Op &op, Ctx &x) override {
@@ -278,15 +279,15 @@ struct TreeWorld : World {
         case T_WALK: case T_LOCKEDWALK: {
             int m = op.k == T_WALK ? std::max(1, op.a) : 1; bool newmem = op.d & 1;
             Bytes first; Bytes out;
-            if (op.k == T_LOCKEDWALK) { InSut s; t->lock(t); }
+            if (op.k == T_LOCKEDWALK) { InSutLock s; t->lock(t); }
             walk_failed = false;
             for (int i = 0; i < m; i++) {
                 Bytes cur = walk(x, newmem, -1, nullptr);
-                if (walk_failed) { if (op.k == T_LOCKEDWALK) { InSut s; t->unlock(t); } return R_fail(cur); }
+                if (walk_failed) { if (op.k == T_LOCKEDWALK) { InSutLock s; t->unlock(t); } return R_fail(cur); }
                 if (i == 0) first = cur;
                 else if (cur != first) { out = "DIFF@walk" + num(i + 1) + ":" + cur; break; }
             }
-            if (op.k == T_LOCKEDWALK) { InSut s; t->unlock(t); }
+            if (op.k == T_LOCKEDWALK) { InSutLock s; t->unlock(t); }
             if (m >= 100) x.st.add("probe.many_walks");
             return R_ok(first + out);
         }
